@@ -1054,6 +1054,15 @@ func (vc *VC) strLit(s string) Term {
 	t := Term{quoteSym(fmt.Sprintf("str:%d:%s", n, sanitize(s))), SInt}
 	vc.script.DeclareRaw(fmt.Sprintf("(declare-fun %s () Int)\n(assert (= %s %d))\n(assert (= %s %d))", t.S, t.S, 1000000+n, vc.strLen(t).S, len(s)))
 	vc.strLits[s] = t
+	// the bytes of a short literal are facts too (a model that makes a parameter equal to the literal then carries the
+	// literal's content, which is what a replay needs)
+	if len(s) <= 32 {
+		var facts []string
+		for i := 0; i < len(s); i++ {
+			facts = append(facts, fmt.Sprintf("(assert (= %s %d))", vc.strAt(t, IntLit(int64(i))).S, s[i]))
+		}
+		vc.script.DeclareRaw(strings.Join(facts, "\n"))
+	}
 	return t
 }
 
